@@ -112,7 +112,7 @@ Definition same_state (n : nat) (s : sstate) (sn : snap) : bool :=
 Definition all_true (l : list bool) : bool := forallb (fun b => b) l.
 
 (* one snapshot *)
-Definition tsnap (P : problem) (n : nat) (r : tres) (sn : snap) : tres :=
+Definition tsnap (P : problem) (n : nat) (prev_restarts : Z) (r : tres) (sn : snap) : tres :=
   match r with
   | TOk (Running s0) _ =>
     (* reduceLearned *)
@@ -121,7 +121,9 @@ Definition tsnap (P : problem) (n : nat) (r : tres) (sn : snap) : tres :=
     match r1 with
     | TOk (Running s1) _ =>
       (* restart *)
-      let r2 := if is_prefix (s_trail (ss_st s1)) (sn_trail sn) then r1 else tstep P n r1 CRestart 4 in
+      (* the restart counter of the solver moved (or, should the counter be unavailable, the trail was cut) *)
+      let r2 := if (prev_restarts <? sn_restarts sn) || negb (is_prefix (s_trail (ss_st s1)) (sn_trail sn))
+                then tstep P n r1 CRestart 4 else r1 in
       match r2 with
       | TOk (Running s2) _ =>
         if negb (is_prefix (s_trail (ss_st s2)) (sn_trail sn))
@@ -255,7 +257,8 @@ Definition judge_trace (s : sx) : verdict :=
           else if negb (init_okb P units assumed) then Fail "trace-initial-state" []
           else if negb (vars_inb n P) then Fail "trace-variable-range" []
           else
-            let r := fold_left (tsnap P n) sns (TOk (init_config units assumed) []) in
+            let r := fst (fold_left (fun acc sn => (tsnap P n (snd acc) (fst acc) sn, sn_restarts sn)) sns
+                                    (TOk (init_config units assumed) [], sn_restarts sn0)) in
             let r' :=
               if truncated then r
               else if vd =? 1 then sat_closure (S n) P n r
